@@ -350,15 +350,15 @@ fn check(b: &Built, rep: &mut Report) {
         j
     };
     let desc = || format!("fault {} at position {} on conn{}; {}", b.kind, b.pos, f, scn.describe());
-    let a = match vnet::catch(|| run_world(&scn.world())) {
+    let a = match run_world_caught(scn.world()) {
         Err(p) => {
-            rep.violation("C09/panic-in-server", format!("panic: {p}; {}", desc()), replay());
+            world_failure(rep, "C09", &p, format!("{}", desc()), replay());
             return;
         }
         Ok(o) => o,
     };
     let scn_b = without(scn, f);
-    let bb = match vnet::catch(|| run_world(&scn_b.world())) {
+    let bb = match run_world_caught(scn_b.world()) {
         Err(p) => {
             rep.inconclusive.push(format!("reference run without the faulty client panicked: {p}"));
             return;
@@ -584,9 +584,10 @@ fn check_churn(scn: &Scenario, n: usize, rep: &mut Report) {
     let mut j = scn.to_json("c09");
     // the replay file holds the recipe, not thousands of connections
     j = json!({"monitor": "c09", "churn": n, "wake": scn.wake, "first_conns": j["conns"].as_array().map(|a| a.iter().take(3).cloned().collect::<Vec<_>>())});
+    // (no watchdog here: this one world legitimately runs for a long time)
     let out = match vnet::catch(|| run_world(&scn.world())) {
         Err(p) => {
-            rep.violation("C09/panic-in-server", format!("panic: {p}; churn of {n} faulty clients"), j);
+            world_failure(rep, "C09", &p, format!("churn of {n} faulty clients"), j);
             return;
         }
         Ok(o) => o,
@@ -615,7 +616,7 @@ pub fn run(cfg: &Cfg) -> Report {
         let scn = Scenario::from_json(r);
         let b = Built { faulty: r["faulty"].as_u64().unwrap_or(0) as usize, chains: vec![], kind: "replayed", pos: 0, scn };
         check(&b, &mut rep);
-        rep.notes.push(format!("{:?}", vnet::catch(|| run_world(&b.scn.world()))));
+        rep.notes.push(format!("{:?}", run_world_caught(b.scn.world())));
         return rep;
     }
     let miri = cfg.layer == "miri";
